@@ -496,3 +496,367 @@ def gen_case(rng, profile="mixed"):
     else:
         limit = None
     return ("run", t, rng.choice(STARTS), limit, pool, specs)
+
+
+# --------------------------------------------------------------------------- observation wrapper, shrinking
+
+class Obs(tuple):
+    """tuple (= the S-expr view the driver must reproduce) that also carries the raw dict as .d"""
+    def __new__(cls, d):
+        o = super().__new__(cls, obs_view(d))
+        o.d = d
+        return o
+
+
+def _shrink_specs(specs):
+    """yield smaller variants of a list of specs"""
+    for n in range(len(specs)):
+        yield specs[:n] + specs[n + 1:]
+    for n, s in enumerate(specs):
+        if s[0] == "leaf":
+            _, i, shape, act, steps = s
+            for k in range(len(steps)):
+                yield specs[:n] + [("leaf", i, shape, act, steps[:k] + steps[k + 1:])] + specs[n + 1:]
+            for k, (ops, out) in enumerate(steps):
+                for m in range(len(ops)):
+                    yield specs[:n] + [("leaf", i, shape, act, steps[:k] + [(ops[:m] + ops[m + 1:], out)] + steps[k + 1:])] + specs[n + 1:]
+                for m, op in enumerate(ops):
+                    if len(op[1]) > 1:
+                        for q in range(len(op[1])):
+                            op2 = (op[0], op[1][:q] + op[1][q + 1:])
+                            yield specs[:n] + [("leaf", i, shape, act, steps[:k] + [(ops[:m] + [op2] + ops[m + 1:], out)] + steps[k + 1:])] + specs[n + 1:]
+                if isinstance(out, tuple) and out[0] == "yield" and out[1] not in (0.0,):
+                    yield specs[:n] + [("leaf", i, shape, act, steps[:k] + [(ops, ("yield", 0.0))] + steps[k + 1:])] + specs[n + 1:]
+            if act != "ok":
+                yield specs[:n] + [("leaf", i, shape, "ok", steps)] + specs[n + 1:]
+            if shape != "doify":
+                yield specs[:n] + [("leaf", i, "doify", act, steps)] + specs[n + 1:]
+        else:
+            _, i, tock, always, kids, pool = s
+            # splice the group away
+            yield specs[:n] + list(kids) + specs[n + 1:]
+            for k2 in _shrink_specs(list(kids)):
+                yield specs[:n] + [("group", i, tock, always, k2, pool)] + specs[n + 1:]
+            for p2 in _shrink_specs(list(pool)):
+                yield specs[:n] + [("group", i, tock, always, kids, p2)] + specs[n + 1:]
+            if tock != 0.0:
+                yield specs[:n] + [("group", i, 0.0, always, kids, pool)] + specs[n + 1:]
+
+
+def has_always(specs):
+    return any(s[0] == "group" and (s[3] or has_always(s[4]) or has_always(s[5])) for s in specs)
+
+
+def shrink_case(case):
+    _, tock, start, limit, pool, specs = case
+    for s2 in _shrink_specs(list(specs)):
+        yield ("run", tock, start, limit, pool, s2)
+    for p2 in _shrink_specs(list(pool)):
+        yield ("run", tock, start, limit, p2, specs)
+    if start != 0.0:
+        yield ("run", tock, 0.0, limit, pool, specs)
+    if tock != 1.0:
+        yield ("run", 1.0, start, limit, pool, specs)
+    if limit is not None and not has_always(list(specs) + list(pool)):
+        yield ("run", tock, start, None, pool, specs)
+    if limit is not None and limit != 3 * tock:
+        yield ("run", tock, start, 3 * tock, pool, specs)
+
+
+def case_valid(case):
+    """termination guard used by shrink/mutate: an `always` group needs a limit"""
+    _, tock, start, limit, pool, specs = case
+    if tock <= 0:
+        return False
+    if limit is None and has_always(list(specs) + list(pool)):
+        return False
+    for s, _, _ in all_specs(case):
+        if s[0] == "leaf" and not shape_ok(s):
+            return False
+    return True
+
+
+def _map_leaves(specs, f):
+    out = []
+    for s in specs:
+        if s[0] == "leaf":
+            out.append(f(s))
+        else:
+            out.append(("group", s[1], s[2], s[3], _map_leaves(s[4], f), _map_leaves(s[5], f)))
+    return out
+
+
+def mutate_case(rng, case):
+    """neighbourhood for the failing-input search: shrinks + a fault / op / tock planted at a random place"""
+    _, tock, start, limit, pool, specs = case
+    out = [c for c in shrink_case(case) if case_valid(c)][:60]
+    leaves = [s for s, _, _ in all_specs(case) if s[0] == "leaf" and s[4]]
+    pm = parent_map(case)
+    for _ in range(40):
+        if not leaves:
+            break
+        tgt = rng.choice(leaves)
+        k = rng.randrange(len(tgt[4]))
+        kind = rng.choice(["raise", "kbint", "ret", "yield", "remove", "limit"])
+        if kind == "limit":
+            out.append(("run", tock, start, rng.choice([0.0, tock, 2.5 * tock, 4 * tock]), pool, specs))
+            continue
+
+        def f(s):
+            if s[1] != tgt[1]:
+                return s
+            steps = list(s[4])
+            ops, o = steps[k]
+            if kind == "raise":
+                steps[k] = (ops, "raise")
+            elif kind == "kbint":
+                steps[k] = (ops, "kbint")
+            elif kind == "ret":
+                steps[k] = (ops, ("ret", True))
+            elif kind == "yield":
+                steps[k] = (ops, ("yield", rng.choice([0.0, tock, 2 * tock, 0.1])))
+            else:
+                sibs = [i for i, p in pm.items() if p == pm[s[1]]]
+                steps[k] = (ops + [("remove", [rng.choice(sibs) for _ in range(rng.choice([1, 2]))])], o)
+            return ("leaf", s[1], "doify", s[3], steps)
+        c2 = ("run", tock, start, limit, _map_leaves(pool, f), _map_leaves(specs, f))
+        if case_valid(c2):
+            out.append(c2)
+    return out
+
+
+# --------------------------------------------------------------------------- common analysis of a trace (oracle side)
+
+def spec_index(case):
+    """id -> spec, id -> scheduler id, scheduler id -> [pool ids], scheduler id -> [kid ids]"""
+    _, tock, start, limit, pool, specs = case
+    spec, par, pools, kids = {}, {}, {0: [s[1] for s in pool]}, {0: [s[1] for s in specs]}
+    for s, p, _ in all_specs(case):
+        spec[s[1]] = s
+        par[s[1]] = p
+        if s[0] == "group":
+            pools[s[1]] = [x[1] for x in s[5]]
+            kids[s[1]] = [x[1] for x in s[4]]
+    return spec, par, pools, kids
+
+
+def descendants(case):
+    spec, par, pools, kids = spec_index(case)
+    out = {}
+    for i in spec:
+        a = par[i]
+        while a != 0:
+            out.setdefault(a, set()).add(i)
+            a = par[a]
+    return out
+
+
+def has_out(spec, what):
+    if spec[0] == "leaf":
+        return any(o == what for _, o in spec[4])
+    return any(has_out(k, what) for k in spec[4]) or any(has_out(k, what) for k in spec[5])
+
+
+def has_op(spec, what):
+    if spec[0] == "leaf":
+        return any(op[0] == what for ops, _ in spec[4] for op in ops)
+    return any(has_op(k, what) for k in spec[4]) or any(has_op(k, what) for k in spec[5])
+
+
+class SchedCheck(core.Check):
+    """base of the scheduler-family checks: same cases, same adapter, same model driver; subclasses add the oracle"""
+    pkg = "Sched"
+    exe = "drv"
+    quick_n = 700
+    thorough_n = 30000
+    profiles = ("mixed", "ops", "faults", "time")
+    trusted_base = ["correspondence harness/areas/sched.py: compiled model driver vs hio.base.doing run in-process on the same program (trace, flags, done, tyme, raised, doers compared as strings; tymes as IEEE-754 bit patterns)",
+                    "adapter: harness-side subclasses of Doer/DoDoer/Doist that log the lifecycle methods, remove() and exit() calls; five Python doer shapes built from one script",
+                    "modelled: a Python generator as its remaining script; exceptions as values (err/kbint); the deque+marker as a zipper"]
+    assumptions = ["ops are issued by a running doer on its own scheduler only; a pool doer does not remove itself; a removed pool DoDoer whose children issue ops is not extended again (the generators respect this)",
+                   "py3.12: generator.close() returns None; Doer/DoDoer return self.done on close, so 3.13 semantics assign the same value",
+                   "KeyboardInterrupt raised inside enter is not modelled"]
+
+    def corpus(self):
+        return list(CORPUS)
+
+    def generate(self, rng, n, tier):
+        for _ in range(n):
+            yield gen_case(rng, rng.choice(self.profiles))
+
+    def request(self, case):
+        return request(case)
+
+    def run_impl(self, case):
+        return Obs(run_program(case))
+
+    def compare_view(self, case, obs):
+        return sx.dumps(tuple(obs))
+
+    def shrink(self, case):
+        return (c for c in shrink_case(case) if case_valid(c))
+
+    def mutate(self, rng, case):
+        return mutate_case(rng, case)
+
+    def nontrivial(self, case, obs):
+        d = obs.d
+        return len(d["trace"]) >= 12 and (d["raised"] != "-" or any(e[1] in ("cease", "rmBeg", "doers") for e in d["trace"]))
+
+    def features(self, case, obs):
+        d = obs.d
+        _, tock, start, limit, pool, specs = case
+        f = ["raised:" + d["raised"], "done:%s" % d["done"], "limit:" + ("none" if limit is None else "zero" if limit == 0 else "neg" if limit < 0 else "pos"),
+             "events~%d" % (len(d["trace"]) // 25 * 25), "start:" + ("0" if start == 0 else "non0")]
+        kinds = {e[1] for e in d["trace"]}
+        for k in ("cease", "abort", "rmBeg", "doers", "exitEnd"):
+            if k in kinds:
+                f.append("has:" + k)
+        sp = all_specs(case)
+        f.append("doers~%d" % len(sp))
+        if any(s[0] == "group" for s, _, _ in sp):
+            f.append("nested")
+            if any(s[0] == "group" and p != 0 for s, p, _ in sp):
+                f.append("nested>=2")
+            if any(s[0] == "group" and s[2] != 0 for s, _, _ in sp):
+                f.append("group-tock>0")
+            if any(s[0] == "group" and s[3] for s, _, _ in sp):
+                f.append("group-always")
+        for s, _, _ in sp:
+            if s[0] == "leaf":
+                f.append("shape:" + s[2])
+        for w in ("raise", "kbint"):
+            if any(has_out(s, w) for s in list(specs) + list(pool)):
+                f.append("script:" + w)
+        for w in ("extend", "remove"):
+            if any(has_op(s, w) for s in list(specs) + list(pool)):
+                f.append("script:" + w)
+        if any(s[0] == "leaf" and s[3] == "fail" for s, _, _ in sp):
+            f.append("script:enter-fails")
+        # a forced stop in mid cycle with live doers on both sides of the failing one
+        tr = d["trace"]
+        for n, e in enumerate(tr):
+            if e[1] == "stopBeg" and d["raised"] == "err":
+                closed = [x[0] for x in tr[n:] if x[1] == "cease"]
+                if len(closed) >= 2:
+                    f.append("midcycle-stop>=2live")
+        return f
+
+
+def _y(t=0.0):
+    return ([], ("yield", t))
+
+
+def _lf(i, steps, shape="doify", act="ok"):
+    return ("leaf", i, shape, act, steps)
+
+
+# regressions: the pre-findings F01..F07 (DESIGN §7) as replayable cases, plus a few shapes the generators rarely hit
+CORPUS = [
+    # F02: raise in mid cycle, live doers on both sides
+    ("run", 1.0, 0.0, 10.0, [], [_lf(1, [_y()] * 3), _lf(2, [_y()] * 3, "plain"), _lf(3, [_y(), ([], "raise")], "genrecur"), _lf(4, [_y()] * 3, "bound")]),
+    # F02 (remove): removing doers on both sides of the remover
+    ("run", 1.0, 0.0, 10.0, [], [_lf(1, [_y()] * 3), _lf(2, [_y(), ([("remove", [1, 3])], ("yield", 0.0))]), _lf(3, [_y()] * 3, "doize")]),
+    # F02 nested: raise inside the second of two groups
+    ("run", 1.0, 0.0, 10.0, [], [("group", 10, 0.0, False, [_lf(1, [_y()] * 3), _lf(2, [_y()] * 3)], []),
+                                 ("group", 11, 0.0, False, [_lf(3, [_y()] * 3), _lf(4, [_y(), ([], "raise")]), _lf(5, [_y()] * 3)], [])]),
+    # F03: extend in mid cycle, then limit
+    ("run", 1.0, 0.0, 3.0, [_lf(5, [_y()] * 9)], [_lf(1, [_y()] * 9), _lf(2, [([("extend", [0])], ("yield", 0.0))] + [_y()] * 9), _lf(3, [_y()] * 9)]),
+    # F04: third enter inside extend() fails
+    ("run", 1.0, 0.0, 3.0, [_lf(5, [_y()] * 9), _lf(6, [_y(1.0)] * 9, "plain"), _lf(7, [], "doify", "fail")],
+     [_lf(1, [_y()] * 9), _lf(2, [([("extend", [0, 1, 2])], ("yield", 0.0))] + [_y()] * 9), _lf(3, [_y()] * 9)]),
+    # F05: duplicate in extend
+    ("run", 1.0, 0.0, 2.0, [_lf(5, [_y()] * 9)], [_lf(2, [([("extend", [0, 0])], ("yield", 0.0))] + [_y()] * 9)]),
+    # F06: duplicate in remove
+    ("run", 1.0, 0.0, 2.0, [], [_lf(1, [_y()] * 9), _lf(2, [([("remove", [1, 1])], ("yield", 0.0))] + [_y()] * 9)]),
+    # F07: limit 0
+    ("run", 1.0, 0.0, 0.0, [], [_lf(1, [_y()] * 4)]),
+    # F01: KeyboardInterrupt inside a nested doer
+    ("run", 1.0, 0.0, 5.0, [], [_lf(1, [_y()] * 4), ("group", 9, 0.0, False, [_lf(2, [_y(), ([], "kbint")], "plain"), _lf(3, [_y()] * 4)], [])]),
+    # self remove keeps running; remove then extend again (re-entry)
+    ("run", 0.25, 1.0, None, [_lf(5, [_y(), _y()])], [_lf(1, [([("remove", [1])], ("yield", 0.0)), _y(), _y()]),
+                                                      _lf(2, [([("extend", [0])], ("yield", 0.0)), ([("remove", [5])], ("yield", 0.0)), ([("extend", [0])], ("yield", 0.0)), _y(), _y(), _y()])]),
+    # always group emptied, closed by limit; group with own tock
+    ("run", 0.5, 0.0, 4.0, [], [("group", 7, 0.0, True, [_lf(1, [_y()])], []), ("group", 8, 1.0, False, [_lf(2, [_y(0.5), _y(None), _y(1.5)], "genrecur")], [])]),
+    # enter fails in do(): earlier doers closed in reverse
+    ("run", 1.0, 0.0, None, [], [_lf(1, [_y()]), ("group", 9, 0.0, False, [_lf(2, [_y()]), _lf(3, [], "plain", "fail")], []), _lf(4, [_y()])]),
+    # done at enter in all shapes, nothing left: one cycle
+    ("run", 0.1, 0.3, None, [], [_lf(1, [], "plain", ("done", True)), _lf(2, [], "genrecur", ("done", None)), _lf(3, [], "doize", ("done", False)), _lf(4, [], "bound", ("done", True))]),
+]
+
+
+# --------------------------------------------------------------------------- exhaustive small scope (thorough)
+
+EXH_NAME = ("every program over the shapes {3 leaves; 4 leaves; leaf+group(2 leaves)+leaf; group(2)+group(2); group(leaf, group(2))} with scripts of 3 asap yields, "
+            "ONE fault/op of each kind {raise, kbint, ret True, ret None, enter fails, done at enter, remove each non-empty subset of <=2 members incl. self, extend pool [0], extend [0,0,1], extend with failing enter} "
+            "at EACH (doer, step), limits {None, 2.5 tocks}")
+
+
+def exhaustive_scope():
+    y = ([], ("yield", 0.0))
+
+    def shapes():
+        L = lambda i: ("leaf", i, "doify", "ok", [y, y, y])
+        yield [L(1), L(2), L(3)]
+        yield [L(1), L(2), L(3), L(4)]
+        yield [L(1), ("group", 10, 0.0, False, [L(2), L(3)], []), L(4)]
+        yield [("group", 10, 0.0, False, [L(1), L(2)], []), ("group", 11, 0.0, False, [L(3), L(4)], [])]
+        yield [("group", 10, 0.0, False, [L(1), ("group", 11, 0.0, False, [L(2), L(3)], [])], []), L(4)]
+
+    P = [("leaf", 20, "doify", "ok", [y, y]), ("leaf", 21, "plain", "ok", [([], ("yield", 1.0))]), ("leaf", 22, "doify", "fail", [])]
+
+    def with_pool(specs, owner):
+        """give scheduler `owner` the pool P"""
+        if owner == 0:
+            return specs, list(P)
+        def f(ss):
+            out = []
+            for s in ss:
+                if s[0] == "group":
+                    out.append(("group", s[1], s[2], s[3], f(s[4]), list(P) if s[1] == owner else s[5]))
+                else:
+                    out.append(s)
+            return out
+        return f(specs), []
+
+    cases = []
+    for specs in shapes():
+        base = ("run", 1.0, 0.0, None, [], specs)
+        pm = parent_map(base)
+        leaves = [s for s, _, _ in all_specs(base) if s[0] == "leaf"]
+        for lf in leaves:
+            sibs = [i for i, p in pm.items() if p == pm[lf[1]]]
+            subsets = [[a] for a in sibs] + [[a, b] for a in sibs for b in sibs if a < b]
+            variants = []
+            for k in range(3):
+                for out in ("raise", "kbint", ("ret", True), ("ret", None)):
+                    variants.append(("out", k, out))
+                for sub in subsets:
+                    variants.append(("remove", k, sub))
+                for ks in ([0], [0, 0, 1], [0, 2, 1]):
+                    variants.append(("extend", k, ks))
+            variants.append(("act", 0, "fail"))
+            variants.append(("act", 0, ("done", True)))
+            for kind, k, arg in variants:
+                def f(s):
+                    if s[1] != lf[1]:
+                        return s
+                    steps = list(s[4])
+                    act = s[3]
+                    if kind == "out":
+                        steps[k] = ([], arg)
+                        steps = steps[:k + 1]
+                    elif kind == "remove":
+                        steps[k] = ([("remove", arg)], steps[k][1])
+                    elif kind == "extend":
+                        steps[k] = ([("extend", arg)], steps[k][1])
+                    else:
+                        act = arg
+                    return ("leaf", s[1], s[2], act, steps)
+                sp2 = _map_leaves(specs, f)
+                pool = []
+                if kind == "extend":
+                    sp2, pool = with_pool(sp2, pm[lf[1]])
+                for limit in (None, 2.5):
+                    cases.append(("run", 1.0, 0.0, limit, pool, sp2))
+    return cases
